@@ -38,6 +38,24 @@ func exprKey(v ssa.Value, depth int) string {
 		return x.Value.ExactString()
 	case *ssa.Global:
 		return x.Pkg.Pkg.Name() + "." + x.Name()
+	case *ssa.Alloc:
+		// a by-value struct parameter spilled into a local: name it after the parameter
+		var only ssa.Value
+		n := 0
+		if refs := x.Referrers(); refs != nil {
+			for _, r := range *refs {
+				if st, ok := r.(*ssa.Store); ok && st.Addr == ssa.Value(x) {
+					n++
+					only = st.Val
+				}
+			}
+		}
+		if n == 1 {
+			if p, ok := only.(*ssa.Parameter); ok {
+				return exprKey(p, depth+1)
+			}
+		}
+		return x.Name()
 	case *ssa.ChangeType:
 		return exprKey(x.X, depth+1)
 	case *ssa.ChangeInterface:
